@@ -274,10 +274,13 @@ func (g *Gen) genC14(n int) error {
 			cfg.minDocs, cfg.maxDocs = 520, 600
 			cfg.maxFields = 1
 			cfg.vecOne, cfg.vecAll = true, true
+			// the optimisation decides the index description and the number of clusters probed
+			cfg.vecOptOverride = []string{"latency", "memory-efficient", "recall"}[g.stats["vec.clustered"]%3]
 		}
 		b := g.randBatch(g.fresh("b"), cfg)
 		if countVecs(b, "vecA") >= 1000 || countVecs(b, "vecB") >= 1000 {
 			g.st("vec.clustered")
+			g.st("vec.clustered." + cfg.vecOptOverride)
 		}
 		g.emitBatch(b)
 		s := g.fresh("s")
@@ -404,6 +407,7 @@ func (g *Gen) bigVecMerge() {
 	cfg.minDocs, cfg.maxDocs = 520, 600
 	cfg.maxFields = 0
 	cfg.vecOne, cfg.vecAll = true, true
+	cfg.vecOptOverride = []string{"memory-efficient", "latency", "recall"}[(g.stats["vec.bigmerge"]/3)%3]
 	b := g.randBatch(g.fresh("b"), cfg)
 	g.emitBatch(b)
 	s := g.fresh("s")
@@ -454,6 +458,46 @@ func (g *Gen) bigVecMerge() {
 	g.emit("vsearch %s q=%s k=%d", h, g.randQuery(2), 3*nd)
 	g.emit("vsearch %s q=%s k=50", h, g.randQuery(2))
 	g.emit("vclose %s", h)
+	// the merge result used a second time: filtered searches of low and of high selectivity (a
+	// clustered index answers them through its id map), and the result merged again
+	nm := nd - len(dropped)
+	var third, most []int
+	for d := 0; d < nm; d++ {
+		if d%3 == 0 {
+			third = append(third, d)
+		}
+		if d%5 != 4 {
+			most = append(most, d)
+		}
+	}
+	hf := g.fresh("h")
+	g.emit("vopen %s %s vecA filt=1 ex=2,7", hf, m)
+	for _, el := range [][]int{third, most} {
+		g.emit("vsearch %s q=%s k=4 elig=%s", hf, g.randQuery(2), intList(el))
+		if v := vecOfDoc(b, nd-1, "vecA"); v != nil {
+			g.emit("vsearch %s q=%s k=3 elig=%s", hf, intList(v), intList(el))
+		}
+	}
+	g.emit("vclose %s", hf)
+	var again []int
+	for d := 0; d < nm; d++ {
+		if d%11 == 3 {
+			again = append(again, d)
+		}
+	}
+	f2 := g.fresh("f")
+	g.emit("merge %s segs=%s drops=%s", f2, m, intList(again))
+	m2 := g.fresh("m")
+	g.emit("open %s %s", m2, f2)
+	g.emit("vstats %s", m2)
+	h2 := g.fresh("h")
+	g.emit("vopen %s %s vecA filt=0 ex=nil", h2, m2)
+	g.emit("vsearch %s q=%s k=%d", h2, g.randQuery(2), 3*nd)
+	if v := vecOfDoc(b, nd-1, "vecA"); v != nil {
+		g.emit("vsearch %s q=%s k=2", h2, intList(v))
+	}
+	g.emit("vclose %s", h2)
+	g.emit("close %s", m2)
 	g.emit("close %s", m)
 	g.emit("close %s", s)
 	g.st("vec.bigmerge")
@@ -471,7 +515,7 @@ func (g *Gen) genC15(n int) error {
 			continue
 		}
 		if i%10 == 4 {
-			g.engFaultMergeCase()
+			g.engFaultMergeCase(g.stats["vec.engfaultmerge"]%2 == 1)
 			g.st("case")
 			continue
 		}
@@ -858,7 +902,7 @@ func countVecs(b *BatchSpec, fn string) int {
 
 // engFaultMergeCase: a two-input vector merge repeated with the n-th call of every engine operation
 // failing: whatever the engine does, a merge that reports success holds exactly the survivors' vectors.
-func (g *Gen) engFaultMergeCase() {
+func (g *Gen) engFaultMergeCase(cancel bool) {
 	g.setMode()
 	var segs []string
 	for k := 0; k < 2; k++ {
@@ -877,7 +921,7 @@ func (g *Gen) engFaultMergeCase() {
 	if dropCount(d1) == g.ndocs[segs[0]] {
 		d1 = "nil"
 	}
-	g.emit("mergeengfaults %s segs=%s drops=%s|%s", mf, strList(segs), d1, d2)
+	g.emit("mergeengfaults %s segs=%s drops=%s|%s cancel=%s", mf, strList(segs), d1, d2, b01(cancel))
 	m := g.fresh("m")
 	g.emit("open %s %s", m, mf)
 	u := newUniverse()
